@@ -410,6 +410,9 @@ class Contract:
         self._assigns = []
         self._loops = {}
         self._ghost_init = {}
+        self._ptr_sets = []
+        self.scenario = ex.opts.get("scenario")
+        self.mode = "verify"
         self.assigns_declared = False
         self.notes = []
         self.assumptions = []
@@ -441,6 +444,18 @@ class Contract:
     def ghost(self, name, term):
         self._ghost_init[name] = term
 
+    def alias(self, p, field, q, qfield):
+        """verify under the aliasing assumption  p->field == q->qfield  (entry heap); no effect at call sites"""
+        if self.mode == "call":
+            return
+        t = self.ex.field_type(q.region.elem, (q.prefix + "." + qfield) if q.prefix else qfield)
+        tgt = self.ex.heap0.ptr(q.region, (q.prefix + "." + qfield) if q.prefix else qfield, t)
+        self.ex.heap0.ptrs[(p.region.rid, (p.prefix + "." + field) if p.prefix else field)] = tgt
+
+    def sets_ptr(self, p, field, target):
+        """at a call site: after the call p->field holds `target` (a Ptr)"""
+        self._ptr_sets.append((p, field, target))
+
     def assume_note(self, text):
         self.assumptions.append(text)
 
@@ -467,6 +482,7 @@ class Exec:
         self.obligations = []
         self.ob_names = {}
         self.ob_seen = set()
+        self.trivial = []
         self.loop_counter = 0
         self.call_counter = 0
         self.covers = {}
@@ -531,6 +547,8 @@ class Exec:
         if z3.is_true(goal):
             base = name or "%s@%s" % (kind, where)
             self.ob_names.setdefault(base, 0)
+            if kind in ("POST", "INV_INIT", "INV_PRESERVE", "PRE", "FRAME"):
+                self.trivial.append("%s:%s/%s" % (self.fname, self.func, base))
             return
         base = name or "%s@%s" % (kind, where)
         gid = goal.get_id()
@@ -1217,6 +1235,8 @@ class Exec:
         # havoc assigns
         for (ptr, fields) in c._assigns:
             self.havoc_region(st, ptr, fields)
+        for (p_, f_, tgt) in c._ptr_sets:
+            st.pmem[(p_.region.rid, (p_.prefix + "." + f_) if p_.prefix else f_)] = tgt
         res = None
         if t.kind in ("int", "bool"):
             res = self.fresh("ret_" + name, sort_of(t))
@@ -1258,6 +1278,7 @@ class Exec:
             if ft.kind == "ptr":
                 nm = "%s.%s!%d" % (r.name, path, next(self.fresh_ctr))
                 nr = Region(nm, ft.to if ft.to.kind != "void" else None, z3.Int("len(%s)" % nm))
+                nr.fresh = True     # a pointer (re)assigned by a callee: memory owned by the object, not the frame
                 self.len_facts.append(nr.length >= 0)
                 st.pmem[(r.rid, path)] = Ptr(nr, nullc=z3.Bool("null(%s)" % nm))
             elif ft.kind in ("int", "bool", "double"):
